@@ -171,6 +171,7 @@ static std::vector<Config> configs()
         cs.push_back({ sn + " 3x1", sink, { { { 2, "a1;" } }, { { 5, "BB22;" } }, { { 4, "c;" } } } });
         cs.push_back({ sn + " 3x2", sink, { { { 2, "a;" }, { 5, "bc;" } }, { { 3, "D;" }, { 5, "EF;" } }, { { 0, "x;" }, { 4, "yz1;" } } } });
         cs.push_back({ sn + " 2x1 long", sink, { { { 5, "abcde;" } }, { { 2, "VWXYZ;" } } } });
+        cs.push_back({ sn + " 4x1", sink, { { { 2, "a;" } }, { { 5, "B2;" } }, { { 4, "c;" } }, { { 1, "dd;" } } } });
     }
     return cs;
 }
@@ -479,6 +480,8 @@ int main(int argc, char** argv)
         int k = a.thorough() ? (two ? 99 : 3) : (two ? 3 : 2);
         if (cs[i].name.find("3x2") != std::string::npos)
             k = a.thorough() ? 3 : 2;
+        if (cs[i].name.find("4x1") != std::string::npos)
+            k = a.thorough() ? 2 : 1;
         jobs.push_back({ static_cast<int>(i), k });
     }
     mc::Sharded sh;
